@@ -155,6 +155,17 @@ func classify(rc *RenderCase, ji int) string {
 	src := reachableSrc(rc, j.Name)
 	switch {
 	case envHasSentinel(rc.Envs[j.Env]) || strings.Contains(src, "☢"):
+		// the recorded finding and nothing else: the output is what the eraser's regular expression leaves of the
+		// document written with its markers (with or without the other recorded finding)
+		if ji < len(rc.Real) && rc.Real[ji].Err == "" && j.Plan == (rt.Plan{}) {
+			got := realBytes(rc.Real[ji])
+			for _, sep := range []bool{false, true} {
+				if wk, werr, ok := rt.IntentKnownSentinel(rc.File, j.Name, rc.Envs[j.Env], sep); ok && werr == "" && wk == got {
+					return "sentinel-in-content"
+				}
+			}
+			return "plain"
+		}
 		return "sentinel-in-content"
 	case strings.Contains(src, "@attributes"):
 		// the recorded finding and nothing else: the output is the intent minus the blank before the @attributes list
